@@ -664,12 +664,14 @@ def g_case(body_name, case, obs, src_len):
     o = g_list(["{| o_stmt := %s; o_ids := [%s]; o_map := [%s] |}" % (
         "true" if st else "false", ";".join(str(i) for i in ids),
         ";".join("(%s, %d)" % (g_text(k), v) for k, v in mp)) for (st, ids, mp) in obs])
-    return ("{| c_body := %s; c_pat := %s; c_exact := [%s]; c_start := %d; c_end := %d; c_skip := %s; c_obs := %s |}"
-            % (body_name, g_tree(pat), ";".join(g_text(w) for w in exact), case["start"], end, skip, o))
+    return ("{| c_body := %s; c_user := %s; c_model := %s; c_pat := %s; c_exact := [%s]; c_start := %d; c_end := %d; "
+            "c_skip := %s; c_obs := %s |}"
+            % (body_name, g_text(case["user"]), g_text(case["model"]), g_tree(pat), ";".join(g_text(w) for w in exact),
+               case["start"], end, skip, o))
 
 
 HEADER = ("From Coq Require Import List NArith Bool.\nImport ListNotations.\n"
-          "From RopeVerif.C19 Require Import Tree Matcher Runner.\nOpen Scope N_scope.\n")
+          "From RopeVerif.C19 Require Import Tree Matcher Restructure CodeTemplate Runner.\nOpen Scope N_scope.\n")
 
 
 def pick_region(rng, src, tree):
@@ -804,7 +806,8 @@ def run_match_cases(ctx, cases):
             ctx.violation(dict(replay, category=r["oracle"][0], observed=r["oracle"][1]),
                           "C19 matching: %s; pattern %r mode %s" % (r["oracle"][1], case["user"][:80], case["mode"]))
         elif idx in mism:
-            what = {1: "match list differs from the model's", 3: "model match is not an instance"}.get(mism[idx], "code %d" % mism[idx])
+            what = {1: "match list differs from the model's", 3: "model match is not an instance",
+                    4: "CodeTemplate model cuts the pattern differently"}.get(mism[idx], "code %d" % mism[idx])
             found = neighbourhood(case)
             if found is None:
                 ctx.violation(dict(replay, mismatch=what,
